@@ -260,6 +260,9 @@ func styles() []styleSpec {
 		{` fill="none" style="stroke:red;stroke-dasharray:5,2"`, ``, ``, with(func(w *want) { w.fill = color.RGBA{}; w.stroke = red; w.dash = []float64{5, 2} }), "dash array in the style attribute", nil},
 		{` fill="none" class="d"`, `.d{stroke:red;stroke-dasharray:5 1}`, ``, with(func(w *want) { w.fill = color.RGBA{}; w.stroke = red; w.dash = []float64{5, 1} }), "dash array from a CSS rule", nil},
 		{` fill="none" stroke-dasharray="none"`, ``, ` stroke="red" stroke-dasharray="6 3"`, with(func(w *want) { w.fill = color.RGBA{}; w.stroke = red }), "dasharray none overrides the inherited pattern", nil},
+		{` fill="none" stroke="red" stroke-width="2" stroke-linejoin="miter"`, ``, ` stroke-linejoin="round" stroke-miterlimit="10"`, with(func(w *want) { w.fill = color.RGBA{}; w.stroke = red; w.sw = 2; w.miter = 10 }), "miter limit given on g while its join is round, the shape switches back to miter", nil},
+		{` fill="none" stroke="red" stroke-width="2" stroke-linejoin="bevel" stroke-miterlimit="2" style="stroke-linejoin:miter"`, ``, ``, with(func(w *want) { w.fill = color.RGBA{}; w.stroke = red; w.sw = 2; w.miter = 2 }), "miter limit read while the join is bevel, the style attribute switches to miter", nil},
+		{` fill="none" stroke="red" stroke-width="2" class="m"`, `.m{stroke-linejoin:miter}`, ` stroke-linejoin="round" stroke-miterlimit="3"`, with(func(w *want) { w.fill = color.RGBA{}; w.stroke = red; w.sw = 2; w.miter = 3 }), "miter limit inherited from a g with a round join, a CSS rule switches to miter", nil},
 		{` id="s1"`, `#nope{fill:blue}`, ``, d(), "id rule for another id", nil},
 		{` class="hot"`, `#other .hot{fill:blue}`, ` id="top"`, d(), "id compound that matches no ancestor", nil},
 		{` class="hot"`, `g > .hot{fill:blue}`, ` class="layer"`, with(func(w *want) { w.fill = blue }), "child combinator, parent is a g", nil},
